@@ -1210,9 +1210,9 @@ def corpus_items(ty, dtype, kind, n):
         g_ang = g_ang + [math.pi - 1e-6, math.pi]
     a_ang = [0.0, 1e-30, eps / 2, eps * (1 - 2 ** -10), eps * (1 + 2 ** -10), 2 * eps, 1e-12, se, 1e-4, 0.04, 0.0500001, 0.06, 1.0,
              3.0, 3.5, 6.0, 6.4]
-    trans = [0.0, 1.0, 1e-8, 1e3, 3.0, 1e6, 0.25, 1e-30]
-    lscale = [0.0, 0.7, -0.7, 1e-30, -eps / 2, eps * (1 + 2 ** -10), 1e-8, -1e-3, 12.0, -12.0, 40.0, -40.0]
-    pts = [1.0, 0.0, 1e-8, 1e6, 2.5, 1e-30, 1e3]
+    trans = [0.0, 1.0, 1e6, 1e-8, 1e3, 3.0, 0.25, 1e-30]
+    lscale = [0.0, -40.0, 0.7, 40.0, -0.7, 1e-30, -12.0, -eps / 2, 12.0, eps * (1 + 2 ** -10), 1e-8, -1e-3]
+    pts = [1.0, 0.0, 1e6, 1e-8, 2.5, 1e-30, 1e3]
     ws = [1.0, 0.0, -2.5, 1.0, 1e-8]
     out = []
     for i in range(n):
@@ -1371,6 +1371,11 @@ def run_corpus(ctx: Ctx, n_items: int, dtypes, fd_every: int):
 # ----------------------------------------------------------------------------- reuse / stale reads / views
 
 REUSE_PROGS = [
+    ("Log", lambda X, a, p: X.Log()),
+    ("Exp", lambda X, a, p: a.Exp()),
+    ("Inv", lambda X, a, p: X.Inv()),
+    ("Adj", lambda X, a, p: X.Adj(a)),
+    ("Retr", lambda X, a, p: X.Retr(a)),
     ("Act", lambda X, a, p: X.Act(p)),
     ("AdjT", lambda X, a, p: X.AdjT(a)),
     ("LogMul", lambda X, a, p: (a.Exp() @ X).Log()),
